@@ -495,6 +495,8 @@ def Sim.spawn (s : Sim) (wi : Int) (off : UInt64) : Except Panic (Sim × Bool) :
     if w.state == .alive then .ok (s, false)
     else if s.m == 0 then .error .divZero
     else do
+      -- startOffset %= s.m
+      let off := off % s.m
       -- for i := 0; i < len(code); i++ { s.mem[(off+i)%m] = code[i] }
       let mem ← (List.range w.data.code.size).foldlM (fun (mem : Array Instr) i =>
           let a := ((off + UInt64.ofNat i) % s.m).toNat
